@@ -21,7 +21,7 @@ type arrival struct {
 
 type reconf struct {
 	AfterNs int64  `json:"afterNs"`
-	What    string `json:"what"` // rate | burst
+	What    string `json:"what"` // rate | burst | rate-again | burst-again (the option value given to the constructor is applied once more)
 	Value   int    `json:"value"`
 }
 
@@ -110,7 +110,9 @@ func gen(r *harn.Rng, tier string) interface{} {
 	}
 	if r.Bool(0.3) {
 		for i, n := 0, r.Range(1, 3); i < n; i++ {
-			if r.Bool(0.5) {
+			if r.Bool(0.25) {
+				sc.Reconf = append(sc.Reconf, reconf{AfterNs: int64(r.Intn(400)) * 1e6, What: []string{"rate-again", "burst-again"}[r.Intn(2)]})
+			} else if r.Bool(0.5) {
 				sc.Reconf = append(sc.Reconf, reconf{AfterNs: int64(r.Intn(400)) * 1e6, What: "rate", Value: r.Pick(100*vnet.KBit, 1*vnet.MBit, 8*vnet.MBit)})
 			} else {
 				sc.Reconf = append(sc.Reconf, reconf{AfterNs: int64(r.Intn(400)) * 1e6, What: "burst", Value: r.Pick(100, 1000, 8000, 30000)})
@@ -160,7 +162,8 @@ func run(env *simrt.Env, sci interface{}) {
 			env.Fault("slow-nic")
 		}
 	}}
-	tbf, err := vnet.NewTokenBucketFilter(sink, vnet.TBFRate(sc.Rate), vnet.TBFMaxBurst(sc.Burst), vnet.TBFQueueSizeInBytes(sc.Queue))
+	optRate, optBurst := vnet.TBFRate(sc.Rate), vnet.TBFMaxBurst(sc.Burst)
+	tbf, err := vnet.NewTokenBucketFilter(sink, optRate, optBurst, vnet.TBFQueueSizeInBytes(sc.Queue))
 	if err != nil {
 		env.Infra("NewTokenBucketFilter: %v", err)
 		return
@@ -205,7 +208,17 @@ func run(env *simrt.Env, sci interface{}) {
 			for _, rc := range sc.Reconf {
 				env.Sleep(time.Duration(rc.AfterNs))
 				st := setting{value: rc.Value, inv: env.Stamp(), tInv: env.Now()}
-				if rc.What == "rate" {
+				if rc.What == "rate-again" {
+					st.value = sc.Rate
+					rates = append(rates, st)
+					tbf.Set(optRate) // the very option value the filter was built with
+					rates[len(rates)-1].ret = env.Stamp()
+				} else if rc.What == "burst-again" {
+					st.value = sc.Burst
+					bursts = append(bursts, st)
+					tbf.Set(optBurst)
+					bursts[len(bursts)-1].ret = env.Stamp()
+				} else if rc.What == "rate" {
 					rates = append(rates, st)
 					tbf.Set(vnet.TBFRate(rc.Value))
 					rates[len(rates)-1].ret = env.Stamp()
